@@ -22,7 +22,7 @@ RULE = ('state = structural form (class, args) of a Polynomial / RationalPolynom
 ASSUMPTIONS = ['operands of one operation are of the same class or plain numbers (mixing Polynomial with RationalPolynomial is not a public use)',
                'x ** 0 raises KeyError in both classes and Polynomial has no negative powers: not judged (an exception is not a wrong denotation)',
                'scalar divisors are powers of two so that float coefficients stay exact; divisor 3 is compared with tolerance']
-BOUNDS = {'quick': 'level 2 complete (atoms op atoms, all operators), level 3 = (level<=2) op (atoms) for + - * /; == on all pairs of level<=2 states (capped 1500 states)',
+BOUNDS = {'quick': 'level 2 complete (atoms op atoms, all operators), level 3 = (level<=2) op (atoms) for + - * /; u+v and u-v for all pairs of level<=2 states of one class (400 / 250 states); == on all pairs of level<=2 states (capped 1500 states)',
           'thorough': 'level 3 complete incl. unary and powers, level 4 = (level 3 sample-free: every level-3 state) op (4 atoms) for rational polynomials up to the state cap 60000'}
 
 CONSTS = [0, 1, -1, 2, 3, 0.5, 2.0]
@@ -259,6 +259,33 @@ def expand(task):
     return d
 
 
+def cancel_check(task):
+    """Sums and differences of all pairs of already reached states: cancellation of like terms is what the exact zero tests
+    (and therefore the simplification in code generation) rest on."""
+    lefts, rights = task
+    res = Result()
+    dr = {f: den(f) for f in rights}
+    objs = {f: build(f) for f in rights}
+    for lf in lefts:
+        dl = den(lf)
+        if dl is None:
+            continue
+        a = build(lf)
+        for rf in rights:
+            if rf[0] != lf[0] or dr[rf] is None:
+                continue
+            for name, op, want in (('sub', lambda x, y: x - y, dl - dr[rf]), ('add', lambda x, y: x + y, dl + dr[rf])):
+                res.transitions += 1
+                case = {'op': name, 'left': lf, 'right': rf}
+                try:
+                    out = op(a, objs[rf])
+                except Exception as e:
+                    res.violate(violation(f'{name}:raises', f'{name}({lf}, {rf}) raises {type(e).__name__}: {e}', case, str(want), repr(e)))
+                    continue
+                check_result(res, name, (lf, rf), out, want, case)
+    return res.asdict()
+
+
 def sympy_check(forms):
     """tosympy() of every state denotes the same rational function."""
     import sympy
@@ -344,6 +371,13 @@ def drive(ctx):
             if len(levels[3]) > cap:
                 ctx.capped.append(f'level 4 expands the first {cap} of {len(levels[3])} level-3 states')
             levels[4] = run_level(l3, four, 'binary', 4)
+    # cancellation: u - v and u + v for all pairs of level <= 2 states of one class
+    cp = [f for f in l12 if f[0] == 'P'][:(400 if tier == 'quick' else 1500)]
+    cr = [f for f in l12 if f[0] == 'RP'][:(250 if tier == 'quick' else 700)]
+    for group in (cp, cr):
+        for out in ctx.map('cancel_check', [(ch, group) for ch in chunks(group, 48) if ch]):
+            agg['extra']['cancellation_pairs'] = agg['extra'].get('cancellation_pairs', 0) + out['transitions']
+            merge(agg, out)
     # tosympy on every state of level <= 2 (+ a cap of level 3), == on all pairs of level <= 2 states
     sy = l12 + levels[3][:(300 if tier == 'quick' else 4000)]
     for out in ctx.map('sympy_check', chunks(sy, 32)):
